@@ -9,6 +9,7 @@ def main():
     ap.add_argument("--replay")
     a = ap.parse_args()
     seed = int(os.environ.get("VERIF_SEED", "0") or 0)
+    os.environ["VERIF_TIER"] = a.tier          # inherited by the fresh interpreters of the native stand-ins
     from vf.core import Run
     from vf.types import Unsupported
     try:
